@@ -45,6 +45,10 @@ UNIT = {
                 'old(buffer)@.len() > 0 && old(self).queue().len() > 0 ==> ({ let n = if old(buffer)@.len() <= old(self).queue().len() { old(buffer)@.len() } else { old(self).queue().len() }; '
                 'r == Ready::<Result<usize, Errno>>(Ok(n as usize)) && final(self).queue() =~= old(self).queue().skip(n as int) '
                 '&& forall|k: int| 0 <= k < n ==> final(buffer)@[k] == old(self).queue()[k] })',
+                # no lost wake-up at the object: a reader that is told to wait has been registered with the waker it supplied,
+                # and once bytes have been taken out every writer that was waiting for room has been woken
+                'r is Pending ==> exists|w: Weak<Cell<Option<Waker>>>| #![trigger call_ensures(get_waker, (), w)] call_ensures(get_waker, (), w) && final(self)->Fifo_pending_read_wakers.registered().contains(w.0)',
+                'old(buffer)@.len() > 0 && old(self).queue().len() > 0 ==> final(self)->Fifo_pending_write_wakers.registered() == Set::<u64>::empty()',
             ],
             'loops': {0: {
                 'invariant': [
@@ -70,6 +74,9 @@ UNIT = {
                 # a larger write queues exactly as much of its beginning as fits
                 'old(self)->Fifo_readers > 0 && buffer@.len() > PIPE_SIZE - old(self).queue().len() && old(self).queue().len() < PIPE_SIZE && buffer@.len() > PIPE_BUF ==> '
                 '({ let room = PIPE_SIZE - old(self).queue().len(); r == Ready::<Result<usize, Errno>>(Ok(room as usize)) && final(self).queue() =~= old(self).queue() + buffer@.subrange(0, room) })',
+                # a writer that is told to wait has been registered; once bytes have been queued every waiting reader has been woken
+                'r is Pending ==> exists|w: Weak<Cell<Option<Waker>>>| #![trigger call_ensures(get_waker, (), w)] call_ensures(get_waker, (), w) && final(self)->Fifo_pending_write_wakers.registered().contains(w.0)',
+                'r matches Ready(Ok(_)) ==> final(self)->Fifo_pending_read_wakers.registered() == Set::<u64>::empty()',
             ],
         }),
         (FB, ['impl FileBody', 'fn is_ready_for_reading'], {'ret': 'r', 'requires': ['self.fifo_wf()'], 'ensures': [
